@@ -129,6 +129,40 @@ def _float_case(rng):
     return {'op': 'q2s', 'input': [[code(t) for t in ts], code(sps)]}
 
 
+_CUTOFFS = [0.0, 0.25, 0.5, 0.75, 1.0, 0.1, 0.9, 0.3333333333333333, 0.625]
+
+
+def _cut_case(rng):
+    """quantize_to_step with an explicit quantize_cutoff (positional or keyword, float or int), drawn
+    independently of the resolution and of the times; times around the cutoff boundary (k + c)/sps."""
+    r = rng.random()
+    if r < 0.55:
+        c = rng.choice(_CUTOFFS)
+    elif r < 0.7:
+        c = rng.choice([0, 1])                         # Python ints
+    else:
+        c = rng.uniform(0.0, 1.0)
+    r = rng.random()
+    if r < 0.35:
+        sps = float(2 ** rng.randint(0, 9))            # exact boundaries reachable
+    elif r < 0.7:
+        sps = float(rng.randint(1, 1000))
+    else:
+        sps = _sl().steps_per_quarter_to_steps_per_second(rng.randint(1, 96), _rand_qpm(rng))
+    ts = []
+    for _ in range(rng.randint(1, 4)):
+        k = _rand_k(rng)
+        r = rng.random()
+        if r < 0.6:
+            ts.append(fl.nextafter_n((k + float(c)) / sps, rng.randint(-3, 3)))
+        elif r < 0.8:
+            ts.append((k + 0.5) / sps)
+        else:
+            ts.append(rng.uniform(0, (k + 1) / sps))
+    return {'op': 'q2s_cut', 'input': [[code(t) for t in ts], code(sps), code(float(c)),
+                                       int(isinstance(c, int)), rng.randrange(2)]}
+
+
 def _rel_tie_time(rng, spq, qpm, big=True):
     """A time t (exact dyadic) with t*spq*qpm/60 = k + 1/2 EXACTLY in rational arithmetic, or None.
     x = spq*qpm/60 = a/b in lowest terms; t = (2k+1) b / (2a) is dyadic iff odd(a) divides 2k+1."""
@@ -304,6 +338,8 @@ def _seq_case(rng, op=None, clean=False):
             s = -rng.uniform(0, 3) / sps
             if rng.random() < 0.3:
                 e = s
+        elif neg and rng.random() < 0.15:
+            e = -rng.uniform(0, 3) / sps               # only the END is before zero (end < start)
         notes.append([rng.randint(0, 127), rng.randint(1, 127), code(s), code(e), rng.randrange(ninstr),
                       rng.choice([0, 1, 33]), int(rng.random() < 0.2),
                       rng.choice([0, 0, 7, 123]), rng.choice([0, 0, 9, 55]), rng.randrange(0, 65536 * 4, 4099)])
@@ -339,12 +375,39 @@ def _seq_case(rng, op=None, clean=False):
         total = T()
     d['total'] = code(max(total, 0.0))
     d['qsteps'] = rng.choice([0, 0, 0, 17, 100000])
-    d['spq'] = rng.choice([0, 0, 4, 0])
-    d['sps'] = 0 if d['spq'] else rng.choice([0, 0, 100])
-    d['sub'] = [0, 0] if rng.random() < 0.8 else [code(1.5), code(0.25)]
+    # quantization_info already present in the input (either member of the oneof, or the empty
+    # sub-message), drawn independently of the requested resolution
+    d['spq'] = rng.choice([0, 0, 0, 1, 4, 24, 96, res if op == 'rel' else 7])
+    d['sps'] = 0 if d['spq'] else rng.choice([0, 0, 0, 1, 100, 1000, res if op == 'abs' else 31])
+    if not d['spq'] and not d['sps'] and rng.random() < 0.25:
+        d['qinfo_empty'] = True
+    d['sub'] = [0, 0] if rng.random() < 0.8 else [code(rng.choice([1.5, 0.0, 7.25])), code(rng.choice([0.25, 3.0]))]
     d['tpq'] = rng.choice([220, 480, 96])
     d['meta'] = rng.randint(1, 10 ** 6) if rng.random() < 0.7 else None
-    return {'op': op, 'input': {'res': res, 'desc': d}}
+    case = {'op': op, 'input': {'res': res, 'desc': d}}
+    if clean and rng.random() < 0.2:
+        case = _two_step(rng, case)
+    return case
+
+
+def _desc_of(ns):
+    """description (generator schema) of a real NoteSequence; everything outside the wire rows is dropped"""
+    w = nsio.to_wire(ns, tfun=code, qfun=code)
+    return {'notes': w[0], 'tempos': w[1], 'tsigs': w[2], 'ksigs': w[3], 'texts': w[4], 'ccs': w[5], 'bends': w[6],
+            'sects': w[7], 'total': w[8], 'qsteps': w[9], 'spq': w[10], 'sps': w[11], 'sub': w[12], 'tpq': w[13],
+            'meta': None}
+
+
+def _two_step(rng, case):
+    """the input of the case becomes the OUTPUT of an earlier quantization (other entry point and/or other
+    resolution): re-quantizing must overwrite every stale quantized field"""
+    try:
+        first = dict(case, op=rng.choice(['abs', 'rel']))
+        first['input'] = dict(case['input'], res=rng.choice([1, 3, 4, 17, 96]))
+        out = _call(first, _build(first))
+    except Exception:  # noqa
+        return case
+    return {'op': case['op'], 'input': {'res': case['input']['res'], 'desc': _desc_of(out)}}
 
 
 def corpus():
@@ -387,6 +450,39 @@ def corpus():
                   tempos=[[c(0.0), c(qpm)]], tsigs=[], total=c(t),
                   texts=[[c(t), 0, 'C', 1]], ccs=[[c(t), 0, 64, 127, 0, 0, 0]])
         out.append({'op': 'rel', 'input': {'res': spq, 'desc': dn}})
+    # --- rare but legal shapes / range ends
+    empty = dict(base, notes=[], tempos=[], tsigs=[], total=0)
+    for op, res in (('abs', 1), ('abs', 1000), ('rel', 1), ('rel', 96)):
+        out.append({'op': op, 'input': {'res': res, 'desc': empty}})
+        out.append({'op': op, 'input': {'res': res, 'desc': dict(empty, qinfo_empty=True)}})
+        out.append({'op': op, 'input': {'res': res, 'desc': dict(base, tempos=[], tsigs=[], qinfo_empty=True,
+                                                                 sub=[c(1.5), c(0.25)])}})
+        one0 = dict(base, notes=[[0, 1, 0, 0, 0, 0, 0, 0, 0, 0]], tempos=[], tsigs=[], total=0)   # one note 0..0
+        out.append({'op': op, 'input': {'res': res, 'desc': one0}})
+    for qpm in (10.0, 480.0):
+        for spq in (1, 96):
+            out.append({'op': 'rel', 'input': {'res': spq, 'desc': dict(base, tempos=[[0, c(qpm)]], tsigs=[])}})
+            out.append({'op': 'q2s_rel', 'input': [c(1.0), spq, c(qpm)]})
+    for nd in ((1, 1), (4, 1), (3, 2 ** 30), (-3, 4), (2 ** 31 - 1, 2), (1, 2 ** 30 + 1), (5, -2 ** 31), (4, 0)):
+        out.append({'op': 'rel', 'input': {'res': 4, 'desc': dict(base, tempos=[], tsigs=[[0, nd[0], nd[1]]])}})
+    # explicit cutoff: the documented examples (cutoff 0.75) and the ends 0 / 1, float and int, positional / keyword
+    for cut, isint in ((0.75, 0), (0.25, 0), (0.0, 0), (1.0, 0), (0.0, 1), (1.0, 1), (0.5, 0)):
+        for kw in (0, 1):
+            out.append({'op': 'q2s_cut', 'input': [[c(0.74), c(0.75), c(0.76), c(1.74), c(1.75), c(1.76), c(2.0), c(0.0),
+                                                    c(0.25), c(1.25)], c(1.0), c(cut), isint, kw]})
+    # --- rejection paths: the offending element is NOT the first one stored
+    ok = [60, 100, c(0.5), c(1.0), 0, 0, 0, 0, 0, 0]
+    for op, res in (('abs', 10), ('rel', 4)):
+        out.append({'op': op, 'input': {'res': res, 'desc': dict(base, tempos=[], tsigs=[], notes=[ok, ok, ok, [61, 9, c(-1.0), c(1.0), 0, 0, 0, 0, 0, 0]])}})
+        out.append({'op': op, 'input': {'res': res, 'desc': dict(base, tempos=[], tsigs=[], notes=[ok, ok, [61, 9, c(1.0), c(-1.0), 0, 0, 0, 0, 0, 0]])}})
+        out.append({'op': op, 'input': {'res': res, 'desc': dict(base, tempos=[], tsigs=[], notes=[ok, ok],
+                                                                 ccs=[[c(0.5), 0, 64, 1, 0, 0, 0], [c(-1.0), 0, 64, 1, 0, 0, 0]])}})
+        out.append({'op': op, 'input': {'res': res, 'desc': dict(base, tempos=[], tsigs=[], notes=[ok],
+                                                                 ccs=[[c(0.5), 0, 64, 1, 0, 0, 0]],
+                                                                 texts=[[c(0.5), 0, 'C', 1], [c(1.0), 0, 'G', 1], [c(-1.0), 0, 'D', 1]])}})
+    out.append({'op': 'rel', 'input': {'res': 4, 'desc': dict(base, tempos=[], tsigs=[[0, 4, 4], [c(1.0), 4, 4], [c(2.0), 4, 0]])}})
+    out.append({'op': 'rel', 'input': {'res': 4, 'desc': dict(base, tempos=[], tsigs=[[0, 3, 0], [c(1.0), 3, 0]])}})
+    out.append({'op': 'rel', 'input': {'res': 4, 'desc': dict(base, tempos=[], tsigs=[[0, 0, 8], [c(1.0), 0, 8], [c(2.0), 0, 8]])}})
     # exhaustive small scope for the rejection clause: every list of <= 3 tempos (resp. time signatures)
     # over 2 values x 2 times, i.e. every placement and every storage order of a second / third entry
     tvals = [c(120.0), c(60.0)]
@@ -415,6 +511,8 @@ def cases(rng, tier, n=None):
         out.append(_float_rel_case(rng))
     for _ in range(ns):
         out.append(_stretch_case(rng))
+    for _ in range(max(10, nf // 4)):
+        out.append(_cut_case(rng))
     for i in range(nq):
         out.append(_seq_case(rng, clean=(i % 3 == 0)))
     # the float-code decoder (glue) on the codes used above plus random bit patterns
@@ -457,6 +555,8 @@ def impl(case):
         sps = uncode(a[1])
         ts = [uncode(c) for c in a[0]]
         return [sl.quantize_to_step(t, sps) for t in ts]
+    if op == 'q2s_cut':
+        return _cut_call(a)
     if op == 'q2s_rel':
         t, spq, qpm = uncode(a[0]), a[1], uncode(a[2])
         sps = sl.steps_per_quarter_to_steps_per_second(spq, qpm)
@@ -479,6 +579,19 @@ def impl(case):
     raise ValueError(op)
 
 
+def _cut_arg(a):
+    c = uncode(a[2])
+    return int(c) if a[3] else c
+
+
+def _cut_call(a):
+    sl = _sl()
+    sps, c = uncode(a[1]), _cut_arg(a)
+    if a[4]:
+        return [sl.quantize_to_step(uncode(t), sps, quantize_cutoff=c) for t in a[0]]
+    return [sl.quantize_to_step(uncode(t), sps, c) for t in a[0]]
+
+
 def _delta(rel, i, o):
     """The output sequence with every time printed as (time_out - time_in); mirrors Run/C01.v dSeq."""
     def dl(f, a, b):
@@ -499,6 +612,8 @@ def model_input(case):
     op, a = case['op'], case['input']
     if op == 'q2s':
         return [1, a[0], a[1]]
+    if op == 'q2s_cut':
+        return [7, a[0], a[1], a[2]]
     if op == 'q2s_rel':
         return [2, a[0], a[1], a[2]]
     if op == 'stretch':
@@ -524,7 +639,7 @@ def _norm_me(p):
 
 def model_output(case, m):
     op = case['op']
-    if op == 'q2s':
+    if op in ('q2s', 'q2s_cut'):
         return m
     if op == 'fdec':
         return _norm_me(m)
@@ -630,6 +745,39 @@ def _oracle_float_list(ts, sps, steps):
     return None
 
 
+def _oracle_cut(a, io):
+    """quantize_to_step with the REQUESTED cutoff c: a position n + f goes to step n when f is below the cutoff
+    and to n + 1 when it is above, i.e. floor(p + (1 - c)) outside a 2^-50-relative neighbourhood of the
+    boundary; exactly on the boundary it goes up when every operand is exact (same rule as the tie at 0.5)."""
+    F = Fraction
+    sl = _sl()
+    sps, c = uncode(a[1]), _cut_arg(a)
+    ts = [uncode(t) for t in a[0]]
+    steps = _cut_call(a)
+    if steps != io:
+        return {'kind': 'repeated-call-differs', 'op': 'q2s_cut'}
+    shift = 1 - F(c)
+    shift_exact = F(float(1 - c)) == shift
+    for t, st in zip(ts, steps):
+        p = F(t) * F(sps)
+        if p < 0:
+            continue
+        d = _REL * (p + 2)
+        lo, hi = math.floor(p + shift - d), math.floor(p + shift + d)
+        if lo != hi and shift_exact and _representable(p) and (p + shift).denominator == 1:
+            lo = hi = int(p + shift)
+        if not lo <= st <= hi:
+            return {'kind': 'cutoff-not-honoured', 't': t.hex(), 'sps': sps.hex(), 'cutoff': repr(c), 'got': st,
+                    'want': math.floor(p + shift)}
+        # the default is not disturbed by a call with another cutoff (no state between calls)
+        v = _step_verdict(sl.quantize_to_step(t, sps), p)
+        if v:
+            return {'kind': v, 'after_explicit_cutoff': repr(c), 't': t.hex(), 'sps': sps.hex()}
+        if float(c) == 0.5 and sl.quantize_to_step(t, sps) != st:
+            return {'kind': 'explicit-default-cutoff-differs-from-default', 't': t.hex(), 'sps': sps.hex()}
+    return None
+
+
 def _is_pow2(x):
     return x > 0 and (x & (x - 1)) == 0
 
@@ -652,6 +800,70 @@ def _strip(ns, rel):
     return c.SerializeToString(deterministic=True)
 
 
+_LIVE = []          # (input proto, its bytes, output proto or None, its bytes) of earlier cases, kept alive
+
+
+def _state_checks(case, ns, before, out, exc):
+    """No state between calls, no aliasing between argument and result (the "copy" of the statement)."""
+    op = case['op']
+    ser = lambda m: m.SerializeToString(deterministic=True)   # noqa
+    # (iv) objects of earlier cases are still what they were
+    for (i0, b0, o0, ob0) in _LIVE:
+        if ser(i0) != b0 or (o0 is not None and ser(o0) != ob0):
+            return {'kind': 'earlier-object-changed-by-later-call', 'op': op}, ns, out
+    out_b = ser(out) if out is not None else None
+    # (i) the same call again, on the same argument object and on a fresh equal one
+    for arg in (ns, _build(case)):
+        try:
+            o2 = _call(case, arg)
+            r2 = ser(o2)
+        except Exception as e:  # noqa
+            o2, r2 = None, type(e).__name__
+        if (r2 != out_b) if out is not None else (r2 != exc):
+            return {'kind': 'repeated-call-differs', 'op': op, 'res': case['input']['res']}, ns, out
+        if ser(arg) != before:
+            return {'kind': 'input-mutated', 'op': op, 'on': 'second call'}, ns, out
+    if out is not None:
+        if out is ns:
+            return {'kind': 'result-is-the-argument', 'op': op}, ns, out
+        # (iii) edit the first result in every repeated field; the argument and the second result stay
+        keep = _call(case, ns)
+        for n in out.notes:
+            n.pitch = (n.pitch + 1) % 128
+            n.start_time += 1.0
+            n.quantized_start_step = n.quantized_start_step % 1000 + 5
+        for e in itertools.chain(out.control_changes, out.text_annotations):
+            e.time += 1.0
+            e.quantized_step += 3
+        for t in out.tempos:
+            t.qpm += 1.0
+        for t in out.time_signatures:
+            t.numerator = 1 + t.numerator % 7
+        out.notes.add().pitch = 1
+        out.tempos.add().qpm = 33.0
+        out.total_time += 1.0
+        out.total_quantized_steps += 9
+        out.quantization_info.steps_per_quarter = 77
+        if ser(ns) != before:
+            return {'kind': 'result-aliases-argument', 'op': op}, ns, out
+        if ser(keep) != out_b:
+            return {'kind': 'results-alias-each-other', 'op': op}, ns, out
+        # ... and edit the argument: an earlier result does not follow
+        for n in ns.notes:
+            n.velocity = 1 + n.velocity % 127
+            n.end_time += 2.0
+        ns.total_time += 2.0
+        del ns.tempos[:]
+        if ser(keep) != out_b:
+            return {'kind': 'result-aliases-argument', 'op': op, 'direction': 'argument edited'}, ns, out
+        out = keep
+    fresh = _build(case)
+    _LIVE.append((fresh, before, out, out_b))
+    if len(_LIVE) > 6:
+        _LIVE.pop(0)
+    return None, fresh, out
+
+
 def _oracle_seq(case):
     F = Fraction
     op, res = case['op'], case['input']['res']
@@ -666,6 +878,9 @@ def _oracle_seq(case):
     if ns.SerializeToString(deterministic=True) != before:
         return {'kind': 'input-mutated', 'op': op}
     rel = op == 'rel'
+    v, ns, out = _state_checks(case, ns, before, out, exc)      # fresh, unedited argument / result
+    if v:
+        return v
     # ---- what the statement says must be rejected
     must = set()        # error classes of which one must be raised
     may = set()         # additionally tolerated (grey zone: between 1 and 2 steps before zero)
@@ -808,11 +1023,24 @@ def oracle(case, io):
     if op == 'q2s':
         sps = uncode(a[1])
         ts = [uncode(c) for c in a[0]]
-        return _oracle_float_list(ts, sps, [sl.quantize_to_step(t, sps) for t in ts])
+        steps = [sl.quantize_to_step(t, sps) for t in ts]
+        if steps != io or [sl.quantize_to_step(t, sps) for t in reversed(ts)] != steps[::-1]:
+            return {'kind': 'repeated-call-differs', 'op': op, 'sps': sps.hex()}
+        # Python ints are accepted for both arguments and mean the same number
+        for t, st in zip(ts, steps):
+            if t == int(t) and sl.quantize_to_step(int(t), sps) != st:
+                return {'kind': 'int-time-differs-from-float', 't': t.hex(), 'sps': sps.hex()}
+            if sps == int(sps) and sl.quantize_to_step(t, int(sps)) != st:
+                return {'kind': 'int-resolution-differs-from-float', 't': t.hex(), 'sps': sps.hex()}
+        return _oracle_float_list(ts, sps, steps)
+    if op == 'q2s_cut':
+        return _oracle_cut(a, io)
     if op == 'q2s_rel':
         t, spq, qpm = uncode(a[0]), a[1], uncode(a[2])
         sps = sl.steps_per_quarter_to_steps_per_second(spq, qpm)
         s = sl.quantize_to_step(t, sps)
+        if [s, _me(sps)] != io:
+            return {'kind': 'repeated-call-differs', 'op': op, 'spq': spq, 'qpm': qpm.hex()}
         p = F(t) * F(spq) * F(qpm) / 60
         if p >= 0:
             v = _rel_verdict(s, t, spq, qpm)
@@ -868,6 +1096,9 @@ def nontrivial(case, io):
         return nb
     if op == 'fdec':
         return True
+    if op == 'q2s_cut':
+        c = Fraction(uncode(a[2]))
+        return any(_near_boundary(F(uncode(t)) * F(uncode(a[1])) + _HALF - c) for t in a[0])
     if io[0] == 'EXC':
         _STATS['sequence_errors'][io[1]] = _STATS['sequence_errors'].get(io[1], 0) + 1
         return True
@@ -883,10 +1114,10 @@ def nontrivial(case, io):
 
 def shrink(case):
     op, a = case['op'], case['input']
-    if op == 'q2s':
+    if op in ('q2s', 'q2s_cut'):
         for i in range(len(a[0])):
             if len(a[0]) > 1:
-                yield {'op': op, 'input': [a[0][:i] + a[0][i + 1:], a[1]]}
+                yield {'op': op, 'input': [a[0][:i] + a[0][i + 1:]] + list(a[1:])}
         return
     if op in ('abs', 'rel'):
         for d in nsio.shrink_desc(a['desc']):
